@@ -255,6 +255,14 @@ def run_dump(spec, acc):
                 extra["build_network_map"] = True
             if c % 5 == 4:
                 extra["exclude_pgns"] = [rng.choice(defs).pgn]
+            if c % 5 == 2 and style != "empty":
+                # an include filter that names the dumped definitions in the OTHER spelling (by id where the dump filter has the
+                # number and the other way round), and a few more
+                inc_ = []
+                for j, d in enumerate(chosen):
+                    inc_.append(d.id if (style == "numbers" or (style == "mixed" and j % 2)) else d.pgn)
+                inc_ += [x.pgn if k_ % 2 else x.id for k_, x in enumerate(rng.sample(defs, min(3, len(defs))))]
+                extra["include_pgns"] = inc_
             acc.cover("dump_co_settings", "+".join(sorted(extra)) or "none")
             dec = NMEA2000Decoder(dump_to_file=path, dump_pgns=entries, **extra)
             expected = []
